@@ -55,6 +55,8 @@ type loopInfo struct {
 	blocks  map[*ssa.BasicBlock]bool
 	ordinal int
 	spec    *LoopSpec
+	phis     []*ssa.Phi
+	headPhis map[*ssa.Phi]SV
 	head    *State // state after havoc, for decreases
 	pre     *State // state when the loop was reached (before havoc), for entry(...)
 	minPos  token.Pos
@@ -111,6 +113,7 @@ type fnExec struct {
 	havocked      []string
 	macros        map[string]bool
 	exhaustOnly   bool
+	backEdgeFrom  *ssa.BasicBlock
 	curCall       *ssa.CallCommon
 	exitTag       string
 	pruned        int
@@ -1259,7 +1262,9 @@ func (fx *fnExec) addEdge(from, to *ssa.BasicBlock, cond Term) {
 	if to.Dominates(from) {
 		// back edge
 		li := fx.loops[to]
+		fx.backEdgeFrom = from
 		fx.checkBackEdge(li, cond)
+		fx.backEdgeFrom = nil
 		return
 	}
 	if fx.ctr != nil && fx.ctr.Opts["prune"] == "on" && fx.infeasible(cond) {
@@ -1294,8 +1299,20 @@ func newModSet() *modSet {
 func (fx *fnExec) cutLoop(li *loopInfo) {
 	where := fx.pos(li.minPos)
 	li.pre = fx.st.clone()
+	// SSA phi nodes of the header (range indices and other compiler temporaries that change per iteration):
+	// their entry value comes from the forward edges; they are havocked like any variable assigned in the loop.
+	// Invariants name them phi<loop>_<k> (k-th phi of the header).
+	li.phis = nil
+	for _, in := range li.header.Instrs {
+		if phi, ok := in.(*ssa.Phi); ok {
+			li.phis = append(li.phis, phi)
+		} else {
+			break
+		}
+	}
 	env := fx.curEnv()
 	env.loopPre = li.pre
+	fx.bindPhis(env, li, nil)
 	lname := fmt.Sprintf("loop%d", li.ordinal)
 	if li.spec != nil {
 		for k, c := range li.spec.Invs {
@@ -1308,9 +1325,19 @@ func (fx *fnExec) cutLoop(li *loopInfo) {
 	// havoc
 	ms := fx.loopMods(li)
 	fx.havoc(ms, lname)
+	for k, phi := range li.phis {
+		nv := fx.freshSV(phi.Type(), fmt.Sprintf("%s_phi%d", lname, k+1))
+		fx.wfValue(nv)
+		fx.vals[phi] = nv
+	}
+	li.headPhis = map[*ssa.Phi]SV{}
+	for _, phi := range li.phis {
+		li.headPhis[phi] = fx.vals[phi]
+	}
 	li.head = fx.st.clone()
 	env = fx.curEnv()
 	env.loopPre = li.pre
+	fx.bindPhis(env, li, nil)
 	if li.spec != nil {
 		for _, c := range li.spec.Invs {
 			if !c.inMode(fx.mode) {
@@ -1339,6 +1366,7 @@ func (fx *fnExec) checkBackEdge(li *loopInfo, cond Term) {
 	lname := fmt.Sprintf("loop%d", li.ordinal)
 	env := fx.curEnv()
 	env.loopPre = li.pre
+	fx.bindPhis(env, li, fx.backEdgeFrom)
 	saveR := fx.curR
 	fx.curR = cond
 	if li.spec != nil {
@@ -1351,6 +1379,9 @@ func (fx *fnExec) checkBackEdge(li *loopInfo, cond Term) {
 		if d := li.spec.Decreases; d != nil {
 			now := fx.sc(fx.evalSpec(d.E, env), "")
 			henv := fx.envFor(li.head)
+			for k, phi := range li.phis {
+				henv.names[fmt.Sprintf("phi%d_%d", li.ordinal, k+1)] = li.headPhis[phi]
+			}
 			before := fx.sc(fx.evalSpec(d.E, henv), "")
 			var g Term
 			if fx.mode == "bv" {
@@ -1693,4 +1724,24 @@ func (fx *fnExec) infeasible(cond Term) bool {
 		return ln == "unsat"
 	}
 	return false
+}
+
+// bindPhis makes the header phis of a loop visible to its invariants as phi<loop>_<k>.  from == nil: the value the
+// phi has at the loop head (entry value before the cut, havocked value after); otherwise the value flowing in
+// along the back edge from block `from`.
+func (fx *fnExec) bindPhis(env *SpecEnv, li *loopInfo, from *ssa.BasicBlock) {
+	for k, phi := range li.phis {
+		name := fmt.Sprintf("phi%d_%d", li.ordinal, k+1)
+		if from == nil {
+			if v, ok := fx.vals[phi]; ok {
+				env.names[name] = v
+			}
+			continue
+		}
+		for pi, p := range li.header.Preds {
+			if p == from {
+				env.names[name] = fx.fit(fx.val(phi.Edges[pi]), phi.Type())
+			}
+		}
+	}
 }
